@@ -61,10 +61,10 @@ class StandardBackend(object):
         if depth == 0:
             return np.eye(2**self.nqubit)
         # Case: Gates have been applied
-        mp_array = np.array(copy.deepcopy(mp_list), dtype=object)
-        propagator = ft.reduce(np.kron, mp_array[0,:])
+        mp_array = copy.deepcopy(mp_list)
+        propagator = ft.reduce(np.kron, mp_array[0])
         for i in range(1, depth):
-            propagator = ft.reduce(np.kron, mp_array[i,:]) @ propagator
+            propagator = ft.reduce(np.kron, mp_array[i]) @ propagator
         return propagator @ psi0
 
 class EfficientBackend(object):
